@@ -410,7 +410,7 @@ func rejects(f *ssa.Function, b *ssa.BasicBlock) bool {
 			continue
 		}
 		if r, ok := s.Instrs[len(s.Instrs)-1].(*ssa.Return); ok && len(r.Results) > 0 {
-			last := r.Results[len(r.Results)-1]
+			last := retVal(r, len(r.Results)-1)
 			if isFailureValue(f, last, s) {
 				return true
 			}
